@@ -1,4 +1,5 @@
 """Per-property exploration: which Lean modules, which streams, what `holds` means on a trace."""
+import collections
 import os
 from . import core
 from .core import log
@@ -43,7 +44,7 @@ def _cdrfile_common(ctx, res, replay_ops, want_spec):
     for i, (op, im, mo) in enumerate(zip(r.ops, r.impl, r.model)):
         t = op.split()
         kind = t[1]
-        if kind == "slowdb":
+        if kind in ("slowdb", "outage"):
             continue
         if kind == "conc":
             # a well-formed file written by 8 goroutines at once, 40 times each: every copy must equal the file written alone
@@ -331,7 +332,9 @@ def explore_c08(ctx, res, replay_ops=None):
     res.rule = ("SURs against the real rating server over Diameter/TLS; stored unit-cost strings: integers incl. 0 "
                 "and > 2^32, decimal fractions, signs, spaces, empty and non-numeric text (thorough: random strings of "
                 "length <= 3 over 0-9.+-a); sub-types reserve/debit/AoC/release/unknown; amounts at boundaries of "
-                "2^16/2^31/2^32; non-trivial = answered, distinct by (cost string, sub-type, consumed, quota)")
+                "2^16/2^31/2^32, the optional ConsumedUnits / MonetaryQuota AVP present or absent; CHF side (chf stream, mode costs): "
+                "stored tariffs of 1..20 digits with a decimal point anywhere (Value-Digits across 2^32/2^53/2^63/int64, Exponent 0..19); "
+                "non-trivial = answered, distinct by (cost string, sub-type, consumed, quota)")
 
 
 PROPS["C08"] = dict(lean=["ChfVerif.Props.C08"], explore=explore_c08,
@@ -535,7 +538,7 @@ def explore_c01(ctx, res, replay_ops=None):
     for i, (op, im, mo) in enumerate(zip(r.ops, r.impl, r.model)):
         t = op.split()
         kind = t[1]
-        if kind == "slowdb":
+        if kind in ("slowdb", "outage"):
             continue
         if kind == "reset":
             prev = None
@@ -574,14 +577,22 @@ def explore_c01(ctx, res, replay_ops=None):
             continue
         cur = o.totals()
         last_reserved = o.reserved()
+        across_outage = False
         if a.get("ok") != "1":
-            res.outside_domain["not-in-quantifier(opOKb=0)"] += 1
-            prev = cur
-            continue
+            if a.get("okx") == "1":
+                # a server is unreachable, everything else is inside the quantifier: theorem C01_outage_step prescribes
+                # the movement  + credited - booked  (Lean term accountedOp, evaluated by the driver)
+                across_outage = True
+                res.dist["judged-across-outage"] += 1
+            else:
+                res.outside_domain["not-in-quantifier(opOKb=0)"] += 1
+                prev = cur
+                continue
         res.traces_validated += 1
         net = {}
-        if a.get("net", "-") != "-":
-            for it in a["net"].split(";"):
+        nkey = "acc" if across_outage else "net"
+        if a.get(nkey, "-") != "-":
+            for it in a[nkey].split(";"):
                 k, v = it.rsplit(":", 1)
                 ue, rg = k.split("/")
                 net[(ue, int(rg))] = int(v)
@@ -595,17 +606,22 @@ def explore_c01(ctx, res, replay_ops=None):
                 if k in prev:
                     exp = prev[k] + net.get(k, 0)
                     if v != exp:
-                        res.violation("oracle", "C01: balance+reservation of %s/%d is %d, expected %d (= %d %+d)" % (
-                            k[0], k[1], v, exp, prev[k], net.get(k, 0)), _chf_history(r.ops, i) + ["# impl: " + im[:1500]])
+                        res.violation("oracle", "C01: balance+reservation of %s/%d is %d, expected %d (= %d %+d)%s" % (
+                            k[0], k[1], v, exp, prev[k], net.get(k, 0),
+                            " [a server is unreachable: credited - booked usage, C01_outage_step]" if across_outage else ""),
+                            _chf_history(r.ops, i) + ["# impl: " + im[:1500]])
                         break
         prev = cur
     res.rule = ("histories over the real gin router + processor + rating/account servers (Diameter/TLS, in-memory store): "
                 "1-2 subscribers x 2 rating groups x 1-2 sessions per scenario, unit costs 1,2,3,7,1000, balances 0..100000, "
                 "requested 0..250, used around the last grant (incl. over-reporting), FINAL and other triggers, releases, "
-                "external credits + recharge notifications; plus (mode events) one-time events with and without usage before / between / during / after the "
+                "external credits + recharge notifications; containers of one usage mixing all four quota-management indicators; "
+                "outages of the account-balance / rating server for a few requests (dial error; thorough: also a peer that never "
+                "answers); plus (mode events) one-time events with and without usage before / between / during / after the "
                 "sessions of a subscriber - incl. after a release without FINAL that leaves a reservation behind -, creates refused by OpenCDR; "
                 "judged: every operation inside the quantifier (opOKb, evaluated "
-                "by the Lean driver); non-trivial = operation that moves money; distinct = distinct operation lines")
+                "by the Lean driver) against credited - rated, and every operation made during an outage (opOKx) against "
+                "credited - booked (C01_outage_step); non-trivial = operation that moves money; distinct = distinct operation lines")
 
 
 PROPS["C01"] = dict(lean=["ChfVerif.Props.C01"], explore=explore_c01,
@@ -641,6 +657,11 @@ def _parse_req(tokens):
 def explore_c06(ctx, res, replay_ops=None):
     n = n_for(ctx, 900, 8000)
     r = chf_run(ctx, res, n, replay_ops)
+    if replay_ops is None:
+        # histories of a consumer that stays within its grants by construction, on accounts that run short, with outages of
+        # the account-balance / rating server (generator mode `comply`)
+        r2 = chf_run(ctx, res, n_for(ctx, 700, 6000), None, gen_extra=["-mode", "comply"])
+        r = core.StreamRun(r.ops + r2.ops, r.impl + r2.impl, r.model + r2.model)
     kf = ctx.kf_classes()
     hist_ok = True          # every op so far inside the quantifier and ledger-compliant
     sess_ok = True          # every op so far compliant per *session*
@@ -649,16 +670,21 @@ def explore_c06(ctx, res, replay_ops=None):
     cost = {}
     prev = None
     negative_seen = set()
+    # independent ledger of the money still available per (subscriber, rating group): credited - unit cost x usage reported
+    # (C01's identity), kept from the first observation on; None = to be re-based on the next observation
+    ghost = None
     for i, (op, im, mo) in enumerate(zip(r.ops, r.impl, r.model)):
         t = op.split()
         kind = t[1]
-        if kind == "slowdb":
+        if kind in ("slowdb", "outage"):
             continue
         if kind == "reset":
             hist_ok, sess_ok, sess_grant, rg_sessions, cost, prev, negative_seen = True, True, {}, {}, {}, None, set()
+            ghost = None
             continue
         if kind == "acct":
             prev = None     # the balance (and possibly the tariff) is replaced behind the API: re-base on the next observation
+            ghost = None
             try:
                 cost[(t[2], int(t[3]))] = int(bytes.fromhex(t[5]).decode())
                 if int(bytes.fromhex(t[4]).decode()) < 0:
@@ -669,11 +695,26 @@ def explore_c06(ctx, res, replay_ops=None):
         if kind == "end":
             continue
         a = annots(mo)
-        if a.get("ok") != "1":
+        # inside the quantifier, or a server unreachable while everything reported is still booked in full at the tariff
+        # (Lean: opOKx and booked = rated; then C01_outage_step gives the same movement as C01_step)
+        booked_in_full = a.get("okx") == "1" and a.get("acc") == a.get("net")
+        if a.get("ok") != "1" and not booked_in_full:
             hist_ok = sess_ok = False
+        elif a.get("ok") != "1":
+            res.dist["across-outage-booked-in-full"] += 1
         if a.get("comp") != "1":
             hist_ok = False
+        netd = {}
+        if a.get("net", "-") != "-":
+            for it in a["net"].split(";"):
+                k_, v_ = it.rsplit(":", 1)
+                ue_, rg_ = k_.split("/")
+                netd[(ue_, int(rg_))] = int(v_)
         if kind == "credit":
+            if ghost is not None:
+                for k_, v_ in netd.items():
+                    if k_ in ghost:
+                        ghost[k_] += v_
             continue
         res.evaluations += 1
         o = ChfObs(im)
@@ -689,6 +730,7 @@ def explore_c06(ctx, res, replay_ops=None):
             mi = 0
             pm, pb, pr = (prev.modes(), prev.balances(), prev.reserved()) if prev is not None else ({}, {}, {})
             seen_rg = set()
+            rg_count = collections.Counter(u["rg"] for u in rq["usages"])
             for u in rq["usages"]:
                 online = [c for c in u["conts"] if c[0] == 1]
                 if not online:
@@ -698,6 +740,13 @@ def explore_c06(ctx, res, replay_ops=None):
                 rg_sessions.setdefault(key, set()).add(sid)
                 if used > sess_grant.get((sid, u["rg"]), 0):
                     sess_ok = False
+                if a.get("ok") != "1" and kind == "update":
+                    # a server is unreachable: a usage may have been left without unit information; pair by rating group
+                    if mi >= len(muis) or int(muis[mi][0]) != u["rg"] or rg_count[u["rg"]] > 1:
+                        if mi < len(muis) and int(muis[mi][0]) == u["rg"]:
+                            mi += 1
+                        seen_rg.add(u["rg"])
+                        continue
                 if kind == "update" and mi < len(muis):
                     g = int(muis[mi][1]) if muis[mi][1] != "-" else 0
                     f = muis[mi][2] == "1"
@@ -721,6 +770,20 @@ def explore_c06(ctx, res, replay_ops=None):
                             res.violation("oracle", "C06: granted %d fui=%s, expected %d fui=%s (money available %d, unit cost %d, "
                                           "requested %d)" % (g, f, exp_g, exp_f, avail, c, u["req"]),
                                           _chf_history(r.ops, i) + ["# impl: " + im[:1200]])
+                        # the same sentence judged on the independent ledger: what is still available is what was credited minus
+                        # unit cost x usage reported so far, whatever the CHF's own reservation field says
+                        if ghost is not None and key in ghost and ghost[key] - used * c != avail:
+                            avail_g = ghost[key] - used * c
+                            res.dist["independent-ledger-differs"] += 1
+                            if avail_g < want:
+                                exp2 = (max(avail_g, 0) // c, True)
+                            else:
+                                exp2 = (u["req"], False)
+                            if (g, f) != exp2:
+                                res.violation("oracle", "C06: granted %d fui=%s, expected %d fui=%s: credited minus unit cost x reported usage "
+                                              "leaves %d available (the CHF's balance+reservation says %d), unit cost %d, requested %d" % (
+                                                  g, f, exp2[0], exp2[1], avail_g, avail, c, u["req"]),
+                                              _chf_history(r.ops, i) + ["# impl: " + im[:1200]])
                     if g > (u["req"] or 0) and hist_ok:
                         res.violation("oracle", "C06: granted %d > requested %s" % (g, u["req"]), _chf_history(r.ops, i))
                 elif kind == "release":
@@ -744,11 +807,26 @@ def explore_c06(ctx, res, replay_ops=None):
         res.dist["compliant-history" if hist_ok else "non-compliant-history"] += 1
         if hist_ok:
             res.sample({"op": op[:300], "impl": strip_annot(im)[:200]})
+        # the independent ledger follows the rated usage of the operation; it is (re-)based on the implementation's totals at the
+        # first observation of a history / after an account was redefined, and dropped when the history leaves the quantifier
+        if not hist_ok:
+            ghost = None
+        elif ghost is None:
+            ghost = dict(o.totals()) if (prev is None) else None
+        else:
+            for k_, v_ in netd.items():
+                if k_ in ghost:
+                    ghost[k_] += v_
+            for k_, v_ in o.totals().items():
+                ghost.setdefault(k_, v_)
         prev = o
     res.rule = ("same generator as C01 (balances from 0 to several quotas, unit costs 1..1000, used volumes around the "
                 "last grant, 8% offline containers, FINAL triggers, recharges); an operation is judged when the whole history since "
                 "the last reset is inside the quantifier (opOKb) and ledger-compliant (opCompliantB, both evaluated by the "
-                "Lean driver); non-trivial = update whose grant had to be limited (money short); distinct op lines")
+                "Lean driver) - an operation during an outage stays inside when everything it reports is still booked in full; "
+                "plus histories of a consumer that stays within its grants by construction on accounts that run short, with outages "
+                "(generator mode comply); the grant is judged on the CHF's own balance+reservation and on an independent ledger "
+                "(credited - unit cost x reported usage); non-trivial = update whose grant had to be limited (money short); distinct op lines")
 
 
 PROPS["C06"] = dict(lean=["ChfVerif.Props.C06"], explore=explore_c06,
@@ -783,7 +861,7 @@ def explore_c12(ctx, res, replay_ops=None):
     for i, (op, im, mo) in enumerate(zip(r.ops, r.impl, r.model)):
         t = op.split()
         kind = t[1]
-        if kind == "slowdb":
+        if kind in ("slowdb", "outage"):
             continue
         if kind == "reset":
             prev_state, known, uri, refused_only = None, {}, {}, set()
@@ -906,7 +984,7 @@ def explore_c10(ctx, res, replay_ops=None):
     for i, (op, im, mo) in enumerate(zip(r.ops, r.impl, r.model)):
         t = op.split()
         kind = t[1]
-        if kind == "slowdb":
+        if kind in ("slowdb", "outage"):
             continue
         if kind == "reset":
             live = {}
@@ -1009,7 +1087,7 @@ def explore_c02(ctx, res, replay_ops=None):
     for i, (op, im, mo) in enumerate(zip(r.ops, r.impl, r.model)):
         t = op.split()
         kind = t[1]
-        if kind == "slowdb":
+        if kind in ("slowdb", "outage"):
             continue
         if kind == "reset":
             expect, ident, released = {}, {}, set()
@@ -1281,7 +1359,7 @@ def explore_c17(ctx, res, replay_ops=None):
         t = op.split()
         res.evaluations += 1
         res.dist[t[1]] += 1
-        if t[1] == "rt":
+        if t[1] in ("rt", "client"):
             res.traces_validated += 1
             if im.startswith("same "):
                 res.nontrivial.add(op)
@@ -1289,7 +1367,18 @@ def explore_c17(ctx, res, replay_ops=None):
                 if len(res.samples) < 4:
                     res.sample({"op": op, "impl": im})
             else:
-                res.violation("oracle", "C17: a message did not come back as it was sent: " + im[:600], [op, "# impl: " + im[:4000]])
+                what = "C17: a message did not come back as it was sent: "
+                if t[1] == "client":
+                    what = ("C17: through the CHF's client function (internal/rating, internal/abmf) and a scripted peer, a message was not "
+                            "received as it was sent: ")
+                    m = re.match(r"DIFF (\S+) sent=(.*) got=(.*)$", im)
+                    if m:
+                        a_, b_ = m.group(2), m.group(3)
+                        k = next((j for j in range(min(len(a_), len(b_))) if a_[j] != b_[j]), min(len(a_), len(b_)))
+                        names = list(re.finditer(r"[,{]([A-Za-z][A-Za-z0-9]*)=", a_[:k]))
+                        k0 = names[-1].start(1) if names else 0
+                        what += "%s field %s… received as %s… " % (m.group(1), a_[k0:k0 + 60], b_[k0:k0 + 60])
+                res.violation("oracle", what + im[:600], [op, "# impl: " + im[:4000]])
         elif t[1] == "prim":
             if im != mo:
                 res.disagreements += 1
@@ -1322,7 +1411,9 @@ def explore_c17(ctx, res, replay_ops=None):
                 "values of its AVP type, each optional grouped AVP present/absent) through Marshal -> Serialize -> ReadMessage -> "
                 "Unmarshal, compared field by field; (b) basic AVP data encodings compared with the Lean codec model; (c) every tag name "
                 "looked up by name and back by code; (d) request histories against the real rating and account-balance servers with optional "
-                "AVPs present/absent (Subscription-Id, Requested-Action), compared with the Lean server models; non-trivial = message round trip")
+                "AVPs present/absent (Subscription-Id, Requested-Action), compared with the Lean server models; (e) the same randomly filled "
+                "requests and answers through the CHF's real client functions (internal/rating, internal/abmf) and a scripted peer, both "
+                "directions compared field by field; non-trivial = message round trip")
 
 
 PROPS["C17"] = dict(lean=["ChfVerif.Props.C17"], explore=explore_c17, gen=[gen_table("diameter", "Diameter.lean")],
@@ -1819,6 +1910,17 @@ def _peer_compare(res, op, im, mo):
                     return "elapsed time differs (impl %s ms, model %s ms)" % (af[5], bf[1])
                 if len(bf) > 3 and bf[3] == "1" and af[1] in ("-", "0"):
                     return "CROSSTALK: the update was granted %s although its own account-balance and rating answers arrived in time" % af[1]
+        elif a.startswith("f="):
+            if a == "f=skipped" or b == "f=skipped":
+                if a != b:
+                    return "%s / %s" % (a, b)
+                continue
+            af, bf = a[2:].split(":"), b[2:].split(":")
+            # impl: status ms done pending ; model: ms done
+            if af[2] != bf[1]:
+                return "completion of the final report differs (impl done=%s, model done=%s)" % (af[2], bf[1])
+            if af[2] == "1" and abs(int(af[1]) - int(bf[0])) > PEER_TOL_MS:
+                return "elapsed time of the final report differs (impl %s ms, model %s ms)" % (af[1], bf[0])
         elif a.startswith("n="):
             if a != b:
                 return "%s / %s" % (a, b)
@@ -1847,6 +1949,8 @@ def _explore_peer(ctx, res, replay_ops, which):
             if x[0] == "D":
                 res.dist["answers-delivered-%s-times" % x[1:]] += 1
                 quiet = False
+            if x[0] == "F":
+                res.dist["final-report"] += 1
             if x[0] in "AR":
                 d = int(x[1:])
                 res.dist["%s-delay:%s" % (x[0], "prompt" if d < 5000 else "late" if d < 20000 else "lost")] += 1
@@ -1877,6 +1981,20 @@ def _explore_peer(ctx, res, replay_ops, which):
                     # money was reserved for this update (its own account-balance answer), yet the rating answer it
                     # acted upon allowed nothing: that is the answer to the unit-cost enquiry (quota 0), not to its own request
                     bad = "an update that reserved %s was granted 0 units: it acted upon the rating answer to another request" % f[3]
+                elif len(f) > 7 and int(f[7]) > 0 and int(f[5]) < 4000:
+                    bad = ("an update returned after %s ms while %s account-balance request(s) it had made were still unanswered (no time-out "
+                           "had passed): the request is not tied to the operation, its answer can only reach a later request" % (f[5], f[7]))
+                elif f[0][:1] == "5":
+                    bad = "an update was answered %s" % f[0]
+            if which == "C19" and tok.startswith("f=") and tok != "f=skipped":
+                f = tok[2:].split(":")
+                if f[2] != "1":
+                    bad = "a final report did not complete within 14 s (subscriber blocked)"
+                elif int(f[3]) > 0 and int(f[1]) < 4000:
+                    bad = ("a final report returned after %s ms while the account-balance request that settles it was still unanswered (no "
+                           "time-out had passed): the request is not tied to the operation, its answer can only reach a later request" % f[1])
+                elif f[0][:1] == "5":
+                    bad = "a final report was answered %s" % f[0]
             if which == "C19" and tok.startswith("n=") and tok.endswith(":0"):
                 bad = "an update did not complete"
             if which == "C18" and tok.startswith("c="):
@@ -1914,12 +2032,14 @@ def _explore_peer(ctx, res, replay_ops, which):
                 "the 5 s timeout (6.5 s) or lost (40 s), followed at once / after 3 s / with a 2.5 s answer by further updates; random "
                 "patterns of prompt / 0.8 s / 2.5 s / late / lost answers, each answer delivered once, twice or three times (a relay in front "
                 "of the real servers repeats it); runs of timed-out requests followed by a count of go-diameter watchdog goroutines and of "
-                "answer handlers that have not returned; peers that accept the connection and take 0.3-6.5 s over the TLS handshake "
+                "answer handlers that have not returned; final reports (debit-mode settlement) whose account-balance answer is slow, late "
+                "or lost, followed by the next reservation; peers that accept the connection and take 0.3-6.5 s over the TLS handshake "
                 "(a TCP proxy in front of the servers holds the server's first octets back), for either client, alone, as the last "
                 "dial of an update, several in a row, and combined with answers that are in time by themselves but later than 5 s "
                 "after the dial began; stored account documents the servers cannot digest (quota / unitCost a number, missing, not "
                 "numeric), so that the server-side handler fails without answering: request handler tasks of the two servers and "
-                "sockets in any state are counted as well. Every update must complete within 14 s and act only on the "
+                "sockets in any state are counted as well. Every update must complete within 14 s, must not return while a request it made "
+                "is unanswered before any time-out, and act only on the "
                 "answer to its own account-balance request (identified by the amount: each request tops up by a distinct sum of powers "
                 "of two); observations are compared with the client machines of Model/DiamClient.lean (who answered, elapsed time within "
                 "%d ms, open connections)" % PEER_TOL_MS)
